@@ -66,6 +66,7 @@ type ActCall struct {
 	Pre  *Formula // the path condition of the call chain leading into Fn (⊤ in the root itself)
 	Key  string
 	Fn   *ssa.Function
+	Via  []ssa.CallInstruction // scanActs: the helper calls of the scan body leading into Fn
 }
 
 func (ck *Check) actionAnchors() (map[*ssa.Function]bool, map[*ssa.Function]bool) {
@@ -101,6 +102,7 @@ func (ck *Check) scanActs() []ActCall {
 		return false
 	}
 	var out []ActCall
+	var via []ssa.CallInstruction
 	var walk func(ctx *Ctx, fn *ssa.Function, prefix *Formula, keyPrefix string, depth int)
 	walk = func(ctx *Ctx, fn *ssa.Function, prefix *Formula, keyPrefix string, depth int) {
 		for _, ci := range callsIn(fn, nil) {
@@ -126,10 +128,12 @@ func (ck *Check) scanActs() []ActCall {
 				}
 				ch := ctx.child(h, call, args)
 				ch.depth = 0
+				via = append(via, ci)
 				walk(ch, h, pc, keyPrefix+ck.P.siteKey(ci)+">", depth+1)
+				via = via[:len(via)-1]
 				continue
 			}
-			out = append(out, ActCall{Ctx: ctx, Call: ci, PC: pc, Key: keyPrefix + ck.P.siteKey(ci), Fn: fn})
+			out = append(out, ActCall{Ctx: ctx, Call: ci, PC: pc, Pre: prefix, Key: keyPrefix + ck.P.siteKey(ci), Fn: fn, Via: append([]ssa.CallInstruction{}, via...)})
 		}
 	}
 	walk(ck.P.NewCtx(a.Scan), a.Scan, FTrue, "", 0)
@@ -207,6 +211,30 @@ func (ck *Check) bodyInstrsPC(root *ssa.Function, visit func(ctx *Ctx, fn *ssa.F
 	walk(ck.P.NewCtx(root), root, 0, map[*ssa.Function]bool{root: true}, FTrue)
 }
 
+// expandBoolHelpers: a boolean result of a small loop-free repo helper (`requested, pending :=
+// g.pendingScaleUp(…)`) is read through the helper's returns.
+func (ck *Check) expandBoolHelpers(ctx *Ctx, f *Formula) *Formula {
+	a := ck.A
+	return f.Subst(func(at *Term) *Formula {
+		if at.Kind != "extract" || len(at.Args) != 1 || at.Args[0].Kind != "call" {
+			return nil
+		}
+		ct := at.Args[0]
+		h := ct.Fn
+		if h == nil || !ck.P.inRepo(h) || h.Blocks == nil || len(h.Blocks) > 12 || infoOf(h).hasLoop || h == a.Locked {
+			return nil
+		}
+		idx := 0
+		fmt.Sscan(at.Name, &idx)
+		if idx >= h.Signature.Results().Len() || !isBool(h.Signature.Results().At(idx).Type()) {
+			return nil
+		}
+		ch := ctx.childTerm(ct)
+		ch.depth = 0
+		return ch.returnFormula(idx)
+	})
+}
+
 func (ck *Check) isLockedCall(t *Term, g *Term) bool {
 	if !isCallTo(t, ck.A.Locked) || len(t.Args) != 1 {
 		return false
@@ -245,24 +273,7 @@ func checkC02(ck *Check) {
 			// the test asked through a helper of the scan body (`requested, pending := g.pendingScaleUp(…)`):
 			// its boolean result is read through its returns — what it logs on the way does not matter
 			// for which test was evaluated
-			pc2 := pc.Subst(func(at *Term) *Formula {
-				if at.Kind != "extract" || len(at.Args) != 1 || at.Args[0].Kind != "call" {
-					return nil
-				}
-				ct := at.Args[0]
-				h := ct.Fn
-				if h == nil || !ck.P.inRepo(h) || h.Blocks == nil || len(h.Blocks) > 12 || infoOf(h).hasLoop || h == a.Locked {
-					return nil
-				}
-				idx := 0
-				fmt.Sscan(at.Name, &idx)
-				if idx >= h.Signature.Results().Len() || !isBool(h.Signature.Results().At(idx).Type()) {
-					return nil
-				}
-				ch := ac.Ctx.childTerm(ct)
-				ch.depth = 0
-				return ch.returnFormula(idx)
-			})
+			pc2 := ck.expandBoolHelpers(ac.Ctx, pc)
 			for _, at := range pc2.Atoms() {
 				if ck.isLockedCall(at, g) {
 					if okv, _, _ := Entails(pc2, Not(Atom(at))); okv {
@@ -282,6 +293,25 @@ func checkC02(ck *Check) {
 	ck.lockConstruction("C02.R4")
 	ck.armedLast("C02.R6")
 	ck.statePersistence("C02.R7")
+	// R8: an accepted increase is reported as accepted in every frame of the cloud step
+	for i := len(a.CloudStepChain) - 1; i >= 0; i-- {
+		cs := a.CloudStepChain[i]
+		if i == len(a.CloudStepChain)-1 {
+			for _, s := range a.A {
+				if s.Class == "A-CLOUD-INC" && s.Fn == cs {
+					if call, ok := s.Call.(*ssa.Call); ok {
+						ck.acceptedReported("C02.R8", cs, call, "IncreaseSize")
+					}
+				}
+			}
+			continue
+		}
+		for _, ci := range callsTo(cs, a.CloudStepChain[i+1]) {
+			if call, ok := ci.(*ssa.Call); ok {
+				ck.acceptedReported("C02.R8", cs, call, a.CloudStepChain[i+1].Name())
+			}
+		}
+	}
 	// R3 (continued): nothing else releases or forges the lock
 	{
 		var bad []string
@@ -767,6 +797,7 @@ func checkC03(ck *Check) {
 	ck.classification("C03.R3", map[int]string{0: "untainted"})
 	// R4 recovery branch
 	ck.recoveryBranch("C03.R4")
+	ck.restoreTotality("C03.R7")
 	// R5 auto discovery
 	ck.autoDiscovery("C03.R5")
 	// R6 a node counts as tainted only when the server confirmed the write
@@ -1015,6 +1046,303 @@ func (ck *Check) recoveryBranch(rule string) {
 	ck.cond(!r[a.TaintLoop], rule, "ScaleUp/no-taint", "", funcID(a.ScaleUp), "ScaleUp cannot reach the taint write", "", "chain: "+strings.Join(ck.P.chain(a.ScaleUp, a.TaintLoop), " → "))
 }
 
+// rebuildFailureStops (C04.R6): the provider the scan reads its target and maximum from was
+// refreshed or rebuilt in this RunOnce. The structural part decided here: when the rebuild of the
+// provider (CloudProviderBuilder.Build) fails, RunOnce ends — on the failure edge of Build's error
+// test no group is scanned and no nil error is returned by the frame holding the call.
+func (ck *Check) rebuildFailureStops(rule string) {
+	a := ck.A
+	n := 0
+	seen := map[ssa.Instruction]bool{}
+	ck.bodyInstrsPC(a.RunOnce, func(ctx *Ctx, fn *ssa.Function, in ssa.Instruction, prefix *Formula) {
+		call, ok := in.(*ssa.Call)
+		if !ok || seen[call] || !call.Common().IsInvoke() || call.Common().Method.Name() != "Build" {
+			return
+		}
+		tup, ok := call.Type().(*types.Tuple)
+		if !ok || tup.Len() != 2 || !isErrorType(tup.At(1).Type()) {
+			return
+		}
+		seen[call] = true
+		n++
+		key := ck.P.siteKey(call)
+		var errV ssa.Value
+		for _, r := range *call.Referrers() {
+			if ex, ok := r.(*ssa.Extract); ok && ex.Index == 1 {
+				errV = ex
+			}
+		}
+		var fails []*ssa.BasicBlock
+		if errV != nil {
+			for _, b := range fn.Blocks {
+				iff, ok := b.Instrs[len(b.Instrs)-1].(*ssa.If)
+				if !ok {
+					continue
+				}
+				bo, ok := iff.Cond.(*ssa.BinOp)
+				if !ok || (bo.Op != token.NEQ && bo.Op != token.EQL) {
+					continue
+				}
+				isNil := func(v ssa.Value) bool { k, ok := v.(*ssa.Const); return ok && k.IsNil() }
+				if !((bo.X == errV && isNil(bo.Y)) || (bo.Y == errV && isNil(bo.X))) {
+					continue
+				}
+				if bo.Op == token.NEQ {
+					fails = append(fails, b.Succs[0])
+				} else {
+					fails = append(fails, b.Succs[1])
+				}
+			}
+		}
+		if len(fails) == 0 {
+			ck.fail(rule, key+"/tested", ck.P.instrPos(call), funcID(fn), "the error of the provider rebuild is tested", "no test of Build's error found", "a failed rebuild goes unnoticed and the scan runs on the provider of an earlier scan")
+			return
+		}
+		// blocks that scan a group: the loop of RunOnce around the scan (or its per-group step)
+		scanBlocks := map[*ssa.BasicBlock]bool{}
+		if fn == a.RunOnce {
+			for _, target := range []*ssa.Function{a.Scan, a.GroupStep} {
+				if target == nil {
+					continue
+				}
+				for _, ci := range callsTo(fn, target) {
+					scanBlocks[ci.Block()] = true
+				}
+			}
+		}
+		reach := map[*ssa.BasicBlock]bool{}
+		var walk func(b *ssa.BasicBlock)
+		walk = func(b *ssa.BasicBlock) {
+			if reach[b] {
+				return
+			}
+			reach[b] = true
+			for _, s := range b.Succs {
+				walk(s)
+			}
+		}
+		for _, b := range fails {
+			walk(b)
+		}
+		var why []string
+		pos := ck.P.instrPos(call)
+		for b := range reach {
+			if scanBlocks[b] {
+				why = append(why, "a group scan is reachable after the failed rebuild")
+				pos = ck.P.instrPos(b.Instrs[0])
+			}
+			if r, ok := b.Instrs[len(b.Instrs)-1].(*ssa.Return); ok {
+				if len(r.Results) == 0 {
+					if fn != a.RunOnce {
+						why = append(why, "the helper returns without reporting the failed rebuild")
+					}
+					continue
+				}
+				last := r.Results[len(r.Results)-1]
+				if k, isC := last.(*ssa.Const); isC && k.IsNil() && isErrorType(last.Type()) {
+					why = append(why, "a nil error is returned after the failed rebuild")
+					pos = ck.P.instrPos(r)
+				}
+			}
+		}
+		sort.Strings(why)
+		ck.cond(len(why) == 0, rule, key+"/failure-stops", pos, funcID(fn), "after a failed rebuild of the cloud provider no group is scanned in this RunOnce", strings.Join(why, "; "),
+			"the scan clamps against the target size and maximum cached by an earlier scan's provider")
+	})
+	ck.floor(rule, "provider rebuilds in RunOnce", n, 1)
+}
+
+// benignErrorOf: result idx of fn is an error that is non-nil only when a lister's List failed (the
+// scan saw nothing), or never: every return yields the nil constant, such a lister error, or the
+// error of another function of this kind.
+func (ck *Check) benignErrorOf(fn *ssa.Function, idx int, depth int) bool {
+	if fn == nil || fn.Blocks == nil || !ck.P.inRepo(fn) || depth > 3 || idx >= fn.Signature.Results().Len() {
+		return false
+	}
+	for _, b := range fn.Blocks {
+		r, ok := b.Instrs[len(b.Instrs)-1].(*ssa.Return)
+		if !ok {
+			continue
+		}
+		if idx >= len(r.Results) || !ck.benignErrorValue(r.Results[idx], depth, map[ssa.Value]bool{}) {
+			return false
+		}
+	}
+	return true
+}
+
+func (ck *Check) benignErrorValue(v ssa.Value, depth int, seen map[ssa.Value]bool) bool {
+	if seen[v] {
+		return true
+	}
+	seen[v] = true
+	switch x := v.(type) {
+	case *ssa.Const:
+		return x.IsNil()
+	case *ssa.Phi:
+		for _, e := range x.Edges {
+			if !ck.benignErrorValue(e, depth, seen) {
+				return false
+			}
+		}
+		return true
+	case *ssa.Extract:
+		if c, ok := x.Tuple.(*ssa.Call); ok {
+			return ck.benignErrorCall(c, x.Index, depth)
+		}
+	case *ssa.Call:
+		return ck.benignErrorCall(x, 0, depth)
+	}
+	return false
+}
+
+func (ck *Check) benignErrorCall(c *ssa.Call, idx int, depth int) bool {
+	cc := c.Common()
+	if cc.IsInvoke() {
+		return ck.isListerList(cc.Method)
+	}
+	if f := cc.StaticCallee(); f != nil {
+		return ck.benignErrorOf(f, idx, depth+1)
+	}
+	return false
+}
+
+// isListerList: the List method of one of the repo's lister interfaces (what the group state's Pods
+// and Nodes fields hold).
+func (ck *Check) isListerList(m *types.Func) bool {
+	if m == nil || m.Name() != "List" || m.Pkg() == nil || !ck.P.Shipped[m.Pkg().Path()] {
+		return false
+	}
+	sig, ok := m.Type().(*types.Signature)
+	if !ok || sig.Params().Len() != 0 || sig.Results().Len() != 2 || !isErrorType(sig.Results().At(1).Type()) {
+		return false
+	}
+	_, isSlice := sig.Results().At(0).Type().Underlying().(*types.Slice)
+	return isSlice
+}
+
+// restoreTotality (C03.R7): a scan that sees fewer than min_nodes untainted nodes, with the node
+// count inside its bounds and no cool-down pending, reaches the recovery scale-up. Every other way
+// out of the frames between the scan body and the recovery call must be excluded by those
+// assumptions — the listers answered, helpers that cannot fail did not fail.
+func (ck *Check) restoreTotality(rule string) {
+	a := ck.A
+	ctx0 := ck.P.NewCtx(a.Scan)
+	g := ck.groupTerm(a.Scan)
+	_, lists, ok := ck.scanLists()
+	if !ok || lists[0] == nil || g == nil {
+		ck.undecided(rule, "scan/lists", "", funcID(a.Scan), "classifier results in the scan body", "not found")
+		return
+	}
+	var all *Term
+	for _, ci := range callsTo(a.Scan, a.Filter) {
+		for _, av := range ci.Common().Args {
+			if _, ok := av.Type().(*types.Slice); ok {
+				all = ctx0.Term(av)
+			}
+		}
+	}
+	if all == nil {
+		ck.undecided(rule, "scan/all-nodes", "", funcID(a.Scan), "listed node slice", "not found")
+		return
+	}
+	U := ctx0.Term(lists[0])
+	minT, maxT := ck.optTerm(g, "min_nodes"), ck.optTerm(g, "max_nodes")
+	below := cmpFormula(token.LSS, lenOf("len", U), minT)
+	var restore *ActCall
+	for _, ac := range ck.scanActs() {
+		ac := ac
+		if imp, _, _ := Entails(ac.PC, below); imp && ac.Call.Common().StaticCallee() == a.ScaleUp {
+			restore = &ac
+		}
+	}
+	if restore == nil {
+		ck.fail(rule, "scan/recovery-call", "", funcID(a.Scan), "the scan body calls ScaleUp on the branch len(untainted) < min_nodes", "not found", "below the minimum nothing restores capacity")
+		return
+	}
+	type frame struct {
+		ctx   *Ctx
+		fn    *ssa.Function
+		pre   *Formula
+		after ssa.Instruction // the call of this frame that leads to (or is) the recovery call
+	}
+	var frames []frame
+	if len(restore.Via) == 0 {
+		frames = []frame{{ctx0, a.Scan, FTrue, restore.Call}}
+	} else {
+		frames = []frame{{ctx0, a.Scan, FTrue, restore.Via[0]}, {restore.Ctx, restore.Fn, restore.Pre, restore.Call}}
+	}
+	n := 0
+	for _, fr := range frames {
+		// assumptions read off this frame's own branch atoms
+		assume := []*Formula{below}
+		seenAt := map[string]bool{}
+		for _, b := range fr.fn.Blocks {
+			for _, at := range ck.expandBoolHelpers(fr.ctx, fr.ctx.BlockPC(b)).Atoms() {
+				if seenAt[at.Key()] {
+					continue
+				}
+				seenAt[at.Key()] = true
+				if ck.isLockedCall(at, g) {
+					assume = append(assume, Not(Atom(at)))
+					continue
+				}
+				if at.Kind == "cmp" && (at.Name == "==" || at.Name == "!=") && hasConstStr(at, "nil") {
+					for _, x := range at.Args {
+						idx, ct := 0, x
+						if x.Kind == "extract" && len(x.Args) == 1 {
+							fmt.Sscan(x.Name, &idx)
+							ct = x.Args[0]
+						}
+						benign := false
+						switch {
+						case ct.Kind == "invoke":
+							if m, ok := ct.Obj.(*types.Func); ok {
+								benign = ck.isListerList(m)
+							}
+						case ct.Kind == "call" && ct.Fn != nil:
+							benign = ck.benignErrorOf(ct.Fn, idx, 0)
+						}
+						if benign {
+							if at.Name == "==" {
+								assume = append(assume, Atom(at))
+							} else {
+								assume = append(assume, Not(Atom(at)))
+							}
+						}
+					}
+				}
+			}
+		}
+		for _, b := range fr.fn.Blocks {
+			r, ok := b.Instrs[len(b.Instrs)-1].(*ssa.Return)
+			if !ok {
+				continue
+			}
+			if fr.after.Block() == b || fr.after.Block().Dominates(b) || reachesBlock(fr.after.Block(), b) {
+				continue // the way out passes the recovery call
+			}
+			pre := And(append([]*Formula{fr.pre, ck.expandBoolHelpers(fr.ctx, fr.ctx.BlockPC(b))}, assume...)...)
+			if sat, err := Satisfiable(pre); err == nil && !sat {
+				continue
+			}
+			n++
+			key := fmt.Sprintf("%s/return@block%d/recovery-reached", funcID(fr.fn), b.Index)
+			okv, why, err := fr.ctx.EntailsLinearAny(pre, []LinFact{
+				{A: lenOf("len", all), B: minT, K: 1, Text: "len(allNodes) < min_nodes"},
+				{A: maxT, B: lenOf("len", all), K: 1, Text: "len(allNodes) > max_nodes"},
+			})
+			if err != nil {
+				ck.undecided(rule, key, ck.P.instrPos(r), funcID(fr.fn), "a way out before the recovery call is excluded when len(untainted) < min_nodes within bounds", err.Error())
+				continue
+			}
+			ck.cond(okv, rule, key, ck.P.instrPos(r), funcID(fr.fn), "with len(untainted) < min_nodes, the listers answering and no cool-down pending, a way out of the scan before the recovery scale-up is taken only when the node count is outside [min_nodes, max_nodes]", fr.ctx.BlockPC(b).String(),
+				"a scan that sees fewer than min_nodes untainted nodes can end here without restoring capacity: "+why)
+		}
+	}
+	ck.floor(rule, "ways out of the scan ahead of the recovery call", n, 1)
+}
+
 // autoDiscovery (C03.R5)
 func (ck *Check) autoDiscovery(rule string) {
 	a := ck.A
@@ -1175,6 +1503,10 @@ func checkC04(ck *Check) {
 	ck.floor("C04.R1", "IncreaseSize call sites", n, 1)
 	ck.ok("C04.R3", "provider-bound", "", "", "the provider refuses TargetSize + d > MaxSize before any write (decided as C17.R1)", "see C17.R1")
 	ck.providerBounds("C04.R3")
+	// R6 … by a provider that was refreshed or rebuilt in this RunOnce
+	ck.rebuildFailureStops("C04.R6")
+	// R7 … and the maximum and the target it reads are those of the last refresh (decided as C19.R8)
+	ck.refreshReplaces("C04.R7")
 
 	// R4 bounds guard
 	sctx := ck.P.NewCtx(a.Scan)
